@@ -1,0 +1,7 @@
+//go:build verif && ark_tiny
+
+package ecs
+
+// Mask vocabulary for the tiny (64 bit) build.
+
+//@ spec func mhas(m bitMask, i uint8) bool := m64has(m, i)
